@@ -172,9 +172,147 @@ def thread_function(f):
     return n
 
 
+def _fn_path(t):
+    if t.get("k") != "call" or not isinstance(t.get("func"), dict):
+        return ""
+    return ((t["func"].get("k") or {}).get("fn") or {}).get("path", "") if isinstance(t["func"].get("k"), dict) else ""
+
+
+def _plain(op):
+    pl = _op_place(op)
+    return pl["l"] if _is_local(pl) else None
+
+
+def _mentions(x, locs):
+    if isinstance(x, list):
+        return any(_mentions(y, locs) for y in x)
+    if isinstance(x, dict):
+        if set(x.keys()) == {"l", "p"}:
+            return x["l"] in locs
+        return any(_mentions(v, locs) for v in x.values())
+    return False
+
+
+def thread_try(f, max_chain=14):
+    """`?` applied to a value whose variant is known where it is produced - `from_residual(..)` (an Err/None built by an inner `?`), or an
+    `Ok(..)/Some(..)/Err(..)/None` aggregate - reaches `Try::branch` and the switch on its result through a straight chain of blocks (the
+    return path of an inlined helper: copies, drop flags, drops).  Every path-insensitive query sees that chain joined with the paths of the
+    other variant, and with it the infeasible "the helper failed, the caller's `?` continued".  The chain is cloned for the known producer
+    and its final switch replaced by the edge the variant selects (Err/None -> Break, Ok/Some -> Continue); the originals stay for the other
+    producers.  std semantics used: `from_residual` yields the failure variant, `branch` maps Ok/Some to Continue and Err/None to Break."""
+    import copy as _copy
+    blocks = f["blocks"]
+    n0 = len(blocks)
+    done = 0
+    for p in range(n0):
+        b = blocks[p]
+        if b.get("cleanup"):
+            continue
+        t = b["term"]
+        known = None
+        if t["k"] == "call" and _fn_path(t).endswith("FromResidual::from_residual") and _is_local(t.get("dest")) and isinstance(t.get("t"), int):
+            known = (t["dest"]["l"], "Break")
+        elif t["k"] == "goto":
+            for st in b["stmts"]:
+                if st["k"] != "assign" or not isinstance(st.get("lhs"), dict):
+                    continue
+                if _is_local(st["lhs"]) and st["rv"]["k"] == "aggr" and st["rv"].get("ak") == "adt" and \
+                        st["rv"].get("adt") in ("std::result::Result", "core::result::Result", "std::option::Option", "core::option::Option") and \
+                        st["rv"].get("variant") in ("Ok", "Some", "Err", "None"):
+                    known = (st["lhs"]["l"], "Continue" if st["rv"]["variant"] in ("Ok", "Some") else "Break")
+                elif known is not None and st["lhs"].get("l") == known[0]:
+                    known = None
+        if known is None:
+            continue
+        aliases = {known[0]}
+        cur = t["t"]
+        chain = []
+        found = None
+        for _step in range(max_chain):
+            if cur is None or cur >= n0 or cur == p or cur in chain:
+                break
+            cb = blocks[cur]
+            if cb.get("cleanup"):
+                break
+            ok = True
+            for st in cb["stmts"]:
+                if st["k"] != "assign" or not isinstance(st.get("lhs"), dict):
+                    if _mentions(st, aliases):
+                        ok = False
+                    continue
+                src = _plain(st["rv"].get("op")) if st["rv"]["k"] == "use" else None
+                if src is not None and src in aliases and _is_local(st["lhs"]):
+                    aliases.add(st["lhs"]["l"])
+                elif st["lhs"].get("l") in aliases:
+                    ok = False      # the tracked value is overwritten / written through
+                elif st["rv"]["k"] in ("ref", "rawptr") and _mentions(st["rv"], aliases) and st["rv"].get("mut"):
+                    ok = False
+            if not ok:
+                break
+            ct = cb["term"]
+            if ct["k"] == "goto":
+                chain.append(cur)
+                cur = ct["t"]
+                continue
+            if ct["k"] == "drop":
+                if _mentions(ct.get("place"), aliases):
+                    break
+                chain.append(cur)
+                cur = ct.get("t")
+                continue
+            if ct["k"] == "call":
+                fp = _fn_path(ct)
+                if fp.endswith("Try::branch") and len(ct.get("args", [])) == 1 and _plain(ct["args"][0]) in aliases and _is_local(ct.get("dest")) and isinstance(ct.get("t"), int):
+                    K = ct["t"]
+                    kb = blocks[K] if K < n0 else None
+                    if kb is None or kb.get("cleanup") or kb["term"]["k"] != "switch":
+                        break
+                    dl = _plain(kb["term"]["discr"])
+                    vt = None
+                    for st in kb["stmts"]:
+                        if st["k"] == "assign" and _is_local(st["lhs"], dl) and st["rv"]["k"] == "discr" and _is_local(st["rv"].get("place"), ct["dest"]["l"]):
+                            vt = {nm: int(v) for v, nm in st["rv"].get("variants", [])}
+                        elif st["k"] == "assign" and st["lhs"].get("l") == ct["dest"]["l"]:
+                            vt = None
+                            break
+                    if not vt or known[1] not in vt:
+                        break
+                    tgt = None
+                    for v, bb in kb["term"]["targets"]:
+                        if int(v) == vt[known[1]]:
+                            tgt = bb
+                    if tgt is None:
+                        break
+                    found = (cur, K, tgt)
+                    break
+                if _mentions(ct.get("args"), aliases) or (isinstance(ct.get("dest"), dict) and ct["dest"].get("l") in aliases) or not isinstance(ct.get("t"), int):
+                    break
+                chain.append(cur)
+                cur = ct["t"]
+                continue
+            break
+        if found is None:
+            continue
+        J, K, tgt = found
+        seq = chain + [J, K]
+        base = len(blocks)
+        for i, bi in enumerate(seq):
+            nb = _copy.deepcopy(blocks[bi])
+            nb["cloned_from"] = bi
+            if bi == K:
+                nb["term"] = {"k": "goto", "t": tgt, "sp": blocks[bi]["term"].get("sp"), "threaded": K}
+            else:
+                nb["term"]["t"] = base + i + 1
+            blocks.append(nb)
+        b["term"] = dict(b["term"], t=base, try_threaded=known[1])
+        done += 1
+    return done
+
+
 def normalize_program(d):
     n = 0
     for f in d.get("functions", []):
         if f.get("blocks"):
             n += thread_function(f)
+            n += thread_try(f)
     return n
